@@ -182,7 +182,7 @@ check("C08", "exploration",
 # ---- additions of the last session (appended to the texts above)
 EXTRA_TEXT = {
     "C01": "Appended families: rank-changing memory-only operators (SQUEEZE / EXPAND_DIMS / PACK / UNPACK / SLICE / STRIDED_SLICE, split parts as both operands of a binary "
-           "operator), EXP through an 8-bit table and SQUARED_DIFFERENCE (32-bit elementwise lowering, tolerance 1), grouped convolutions (reference kernel with groups).",
+           "operator), EXP through an 8-bit table and SQUARED_DIFFERENCE (32-bit elementwise lowering, tolerance 1), grouped convolutions (reference kernel with groups); CPU / Ethos-U mixes are compared bit for bit when the reference met no approximated operator.",
     "C02": "The appended families of C01 and 24 UNIDIRECTIONAL_SEQUENCE_LSTM networks per run are footprint-checked too (LSTM findings keyed with the operator).",
     "C03": "Persistent-state (variable) tensors count as defined when the inference starts; the appended families of C01 and 24 LSTM networks per run are replayed too (LSTM findings keyed with the operator).",
     "C05": "Ranges are requested repeatedly with different alignments through LiveRangeGraph.get_or_create_range (the largest request is the requested alignment).",
